@@ -172,6 +172,9 @@ def check(prop, tier, seed, replay=None):
         else:
             plan = TIERS[tier]
             parts = sorted(plan)
+            only = os.environ.get("VERIF_C14_PARTS")   # development aid: restrict the run to some harness parts
+            if only:
+                parts = [p for p in parts if str(p) in only.split(",")]
             with cf.ThreadPoolExecutor(V.NCPU) as ex:
                 exes = list(ex.map(exe_of, parts))
             for part, exe in zip(parts, exes):
@@ -181,13 +184,27 @@ def check(prop, tier, seed, replay=None):
             traces += witnesses(oc, prop, workdir)
         validate(oc, traces, workdir, 1 if replay else CHUNK_SCALE[tier])
         missing = []
-        if not replay:
+        if not replay and not os.environ.get("VERIF_C14_PARTS"):
             for pre in REQUIRED:
                 if not any(k.startswith(pre) and v > 0 for k, v in oc.cov.items()):
                     missing.append(pre)
             if missing:
                 V.log("cells visited: " + json.dumps(dict(sorted(oc.cov.items()))))
                 raise V.ToolFailure(f"coverage cells never visited (vacuity guard): {missing}")
+        # replay files are capped by the driver: put one rejection per (operation, clause) first, then one per stratum
+        seen1, seen2, first, second, rest = set(), set(), [], [], []
+        for v in oc.violations:
+            b = v[0]
+            k1, k2 = (b.get("op"), b.get("clause")), (b.get("op"), b.get("clause"), b.get("stratum"))
+            if k1 not in seen1:
+                first.append(v)
+            elif k2 not in seen2:
+                second.append(v)
+            else:
+                rest.append(v)
+            seen1.add(k1)
+            seen2.add(k2)
+        oc.violations = first + second + rest
         # compact overview of everything that was rejected (stderr; the interface lines follow in finish())
         table = {}
         for b, _ in oc.violations:
